@@ -49,6 +49,7 @@ def normal_form_family(w, seed, spec):
     t0 = time.time()
     fails = []
     cases = list(K.fixed_chains()) + K.Gen(seed).expressions(spec.get('n', 30), depth=2)
+    fails += _inverse_pairs_vanish()
     skip_unique = True      # listed open finding C12-unique-pair-not-reduced / C07-unique-pair-not-reduced
     for name, op in cases:
         if skip_unique and ('Is.T,Is' in name or 'Pk.T,Pk' in name):
@@ -59,6 +60,28 @@ def normal_form_family(w, seed, spec):
         if len(fails) >= 5 or time.time() - t0 > spec.get('budget_s', 60):
             break
     return fails
+
+
+def _inverse_pairs_vanish():
+    """an operator next to its own lazy inverse vanishes, whatever its neighbours"""
+    import jax.numpy as jnp
+    from furax._base.core import CompositionOperator
+    from furax.landscapes import StokesIQUPyTree
+    from furax.operators.hwp import HWPOperator
+    from furax.operators.polarizers import LinearPolarizerOperator
+    from furax.operators.qu_rotations import QURotationOperator
+    st = StokesIQUPyTree.structure_for((2,), jnp.float32)
+    R = QURotationOperator(jnp.asarray([0.3, -1.1], jnp.float32), st)
+    Lp, W = LinearPolarizerOperator(st), HWPOperator(st)
+    out = []
+    for name, ops, expected in (('Lp,R.T,R', [Lp, R.T, R], ['LinearPolarizerOperator']),
+                                ('R,R.T,W', [R, R.T, W], ['HWPOperator']),
+                                ('Lp,R.T,R,W', [Lp, R.T, R, W], ['LinearPolarizerOperator'])):
+        red = CompositionOperator(ops).reduce()
+        got = [type(o).__name__ for o in _operands(red)]
+        if got != expected:
+            out.append(f'{name}: reduced to {got}, the rotation next to its own transpose should vanish ({expected})')
+    return out
 
 
 def identity_from_rule(w, seed, spec):
